@@ -226,6 +226,8 @@ def _nice_model(eng, pc, extra, inputs, m0=None, timeout_ms=4000):
         if m0 is None:
             return None
     constraints = list(pc) + list(extra)
+    if any(z3.is_fp(v) for v in syms):
+        return m0  # float64 model: the solver's binary64 values are the counterexample as they are
     for denom in (1, 4, 64, 4096):
         pairs = []
         for v in syms:
@@ -259,6 +261,16 @@ class Result:
 
 
 def run_harness(h: Harness, res: Result, *, tier, timeout_ms, seed, known, prop, replay_dir):
+    from vf import symx
+
+    symx.FP_MODE = bool(getattr(h, "fp", False))  # float64 harnesses: goals go to the QF_FP tactic
+    try:
+        return _run_harness(h, res, tier=tier, timeout_ms=timeout_ms, seed=seed, known=known, prop=prop, replay_dir=replay_dir)
+    finally:
+        symx.FP_MODE = False
+
+
+def _run_harness(h: Harness, res: Result, *, tier, timeout_ms, seed, known, prop, replay_dir):
     t0 = time.time()
     mods = list(h.modules)
 
@@ -400,9 +412,13 @@ def _inputs_of(eng, fn, p):
 
 
 def _any_model(eng, pc):
+    from vf import symx
     from vf.symx import _solve
 
     goal = list(pc) + list(eng.axioms)
+    if symx.FP_MODE:
+        r, m, _, _ = symx._strategies(goal, 20000)
+        return m if r == z3.sat else None
     r, m, _ = _solve(goal, 2000)
     if r == z3.sat:
         return m
